@@ -92,6 +92,22 @@ def run(ctx):
                         camp.parse(prog, con, h + tail, 0, {}, tag="large")
                         nt += 1
             camp.sh.maybe_flush()
+        # bit-level regions whose length depends on the data and need not end on a byte boundary (the streaming wrapper refuses a partial unit when it is closed)
+        NN = A.T("n")
+        for prog in (A.Bitwise(A.Struct(A.Renamed("n", A.Alias("Nibble")), A.Renamed("v", A.BitsInteger(NN)))),
+                     A.Bitwise(A.Struct(A.Renamed("n", A.Alias("Nibble")), A.Renamed("a", A.Array(NN, A.Alias("Bit"))))),
+                     A.Bitwise(A.Struct(A.Renamed("a", A.Alias("Nibble")), A.Renamed("v", A.Bytewise(A.VarInt)))),
+                     A.Struct(A.Renamed("h", A.Alias("Byte")), A.Renamed("b", A.Bitwise(A.Struct(A.Renamed("n", A.BitsInteger(3)), A.Renamed("r", A.Array(NN, A.BitsInteger(3)))))), A.Renamed("t", A.Alias("Byte"))),
+                     A.BitsSwapped(A.Bitwise(A.Struct(A.Renamed("n", A.Alias("Nibble")), A.Renamed("v", A.BitsInteger(NN))))),
+                     A.Bitwise(A.GreedyRange(A.BitsInteger(3))), A.Bitwise(A.Struct(A.Renamed("n", A.Alias("Octet")), A.Renamed("p", A.Padding(NN))))):
+            con = campaign.realizable(prog)
+            if con is None:
+                continue
+            for b0 in (range(256) if not quick else list(range(0, 256, 16)) + [1, 3, 0x14, 0x47, 0x8f, 0xff, 0x81]):
+                for tail in (b"", b"\x01", b"\x81\x00\xff"):
+                    camp.parse(prog, con, bytes([b0]) + tail, 0, {}, tag="bits")
+                    nt += 1
+            camp.sh.maybe_flush()
         # spec -> code: every input of the sessions TLC explores on the model's universe (design level: theorems Closed / Prefix of MC_CAM),
         # and every strict prefix of the encodings the specification built
         uprogs, ukw, sessions, _ = speccode.explore(ctx, focus="all", part=speccode.part_of(ctx, 64 if quick else 64), faults=True)
